@@ -55,7 +55,7 @@ def instantiate(rows, rng, lifts):
         for ty2 in tys:
             if n >= lifts:
                 break
-            if any(r.get("sp") in ("shl", "and", "plus") for r in ad["val"]):
+            if any(r.get("sp") in ("shl", "and", "plus") for r in ad["val"]) or ad["san"]:
                 continue
             if ty2 in ARITH_INT or VL.int_order_only(ad):
                 d2 = VL.instantiate_int(ad, ty2, "ai%04d_%s" % (i, ty2))
@@ -81,7 +81,7 @@ def check_C14():
     rng = random.Random(seed())
     verdict = Verdict("C14")
     r, rows = arbint_rows()
-    rows = [o for o in rows if not o["d"]["san"]]            # C14 compares with the constructor's range; sanitizers are C09's
+    # declarations with a sanitizer: the obtainable set is the image of the valid inputs; compared on i8/u8 only
     if q and len(rows) > 160:
         keep = [o for o in rows if o["known"]]
         rest = [o for o in rows if not o["known"]]
@@ -91,7 +91,8 @@ def check_C14():
     by_id = {d["id"]: d for d in decls}
 
     def rows_of(d):
-        out = [{"d": d["id"], "ep": "arb", "ins": byte_inputs(rng, 40 if q else 400)}]
+        # (single calls on sanitizer declarations are C09's subject: they panic by the open finding C09-int-sanitizer)
+        out = [] if d["san"] else [{"d": d["id"], "ep": "arb", "ins": byte_inputs(rng, 40 if q else 400)}]
         if valid_size(d) <= 65536 and valid_size(d) >= 1:
             out.append({"d": d["id"], "ep": "arb_cover", "ins": [None]})
         return out
